@@ -481,3 +481,60 @@ def c18_summarize_vs_split(s0: int, s1: int, s2: int, perm: int, k1: int) -> int
     post: _ >= 0
     """
     return _summarize(s0, s1, s2, perm, k1)
+
+
+# ------------------------------------------------------------------ split: multi-source top-priority set
+LABEL3 = 'ENST2|INDEL-5-AA-A|SNV-9-C-G|SNV-12-G-T|1'
+ADD_OPTIONS = [[], [{'gSNP', 'sSNV'}], [{'gSNP', 'sSNV'}, {'gSNP', 'Fusion'}], [{'Fusion'}, {'sSNV'}, {'gSNP'}],
+               [{'sSNV', 'Fusion'}, {'gSNP'}]]
+
+
+def _split_multi(s0, s1, s2, perm, max_groups, add_kind):
+    """ONE header entry with three variants whose sources are symbolic: the top-priority source set has 1..3 sources;
+    several --additional-split sets may match it at once (the first in the given order wins)"""
+    lv = PERMS[concretize(perm, 0, 5)]
+    s0, s1, s2 = concretize(s0, 0, 2), concretize(s1, 0, 2), concretize(s2, 0, 2)
+    additional = [set(a) for a in ADD_OPTIONS[concretize(add_kind, 0, len(ADD_OPTIONS) - 1)]]
+    label_map = LabelSourceMapping({'G2': {'INDEL-5-AA-A': SRC[s0], 'SNV-9-C-G': SRC[s1], 'SNV-12-G-T': SRC[s2]}})
+    rec = AminoAcidSeqRecord(Seq('PEPTIDEK'), _id='x', name='x', description=LABEL3)
+    order = {SRC[i]: lv[i] for i in range(3)}
+    splitter = PeptidePoolSplitter(peptides=VariantPeptidePool({rec}), order=order, label_map=label_map)
+    try:
+        splitter.split(max_groups, additional, TX2GENE, set())
+    finally:
+        VariantSourceSet.reset_levels()
+    src = {s0, s1, s2}
+    names = {SRC[i] for i in src}
+    if len(src) <= max_groups:
+        want = SPLIT_DATABASE_KEY_SEPARATER.join(SRC[i] for i in sorted(src, key=lambda i: lv[i]))
+    else:
+        want = 'Remaining'
+        for a in additional:
+            if a.issubset(names):
+                want = SPLIT_DATABASE_KEY_SEPARATER.join(sorted(a, key=lambda n: lv[SRC.index(n)])) + \
+                    SPLIT_DATABASE_KEY_SEPARATER + 'additional'
+                break
+    dbs = {k: v for k, v in splitter.databases.items() if v.peptides}
+    if len(dbs) != 1 or sum(len(v.peptides) for v in dbs.values()) != 1:
+        return -1                  # not assigned to exactly one database
+    if list(dbs)[0] != want:
+        return -2
+    out = list(dbs[want].peptides)[0]
+    if str(out.seq) != 'PEPTIDEK' or out.description != LABEL3:
+        return -3
+    return OK
+
+
+@cond('C18', bounds='one peptide, one header entry with 3 variants, symbolic source assignment over 3 sources (top-priority set '
+      'of 1..3 sources), every priority order, UNBOUNDED symbolic --max-source-groups, 5 --additional-split option lists '
+      '(none / one / several sets that can match at once)', encodes=['moPepGen.aa.PeptidePoolSplitter.PeptidePoolSplitter.'
+      'split / get_additional_database_key', 'moPepGen.aa.VariantPeptideLabel.VariantPeptideInfo.from_variant_peptide'],
+      codes=CODES_S, timeout=600)
+def c18_split_multi(s0: int, s1: int, s2: int, perm: int, max_groups: int, add_kind: int) -> int:
+    """
+    pre: 0 <= s0 <= 2 and 0 <= s1 <= 2 and 0 <= s2 <= 2
+    pre: 0 <= perm <= 5
+    pre: 0 <= add_kind <= 4
+    post: _ >= 0
+    """
+    return _split_multi(s0, s1, s2, perm, max_groups, add_kind)
